@@ -193,6 +193,8 @@ type GuardQuery struct {
 	// Observe, if set, is called after the fixpoint of every analysed function
 	// context for each call instruction in an executable block.
 	Observe func(in *ssa.Function, site ssa.CallInstruction, callee string, get func(ssa.Value) lat)
+	// ObserveStore, if set, is called likewise for every Store in an executable block.
+	ObserveStore func(in *ssa.Function, st *ssa.Store, get func(ssa.Value) lat)
 }
 
 type retInfo struct {
@@ -812,15 +814,18 @@ func (e *gEngine) analyse(f *ssa.Function, args []lat, depth int) *fnAnalysis {
 			push(bi)
 		}
 	}
-	if e.q.Observe != nil {
+	if e.q.Observe != nil || e.q.ObserveStore != nil {
 		for _, b := range f.Blocks {
 			if !execBlock[b.Index] {
 				continue
 			}
 			curBlock = b.Index
 			for _, in := range b.Instrs {
-				if ci, ok := in.(ssa.CallInstruction); ok {
+				if ci, ok := in.(ssa.CallInstruction); ok && e.q.Observe != nil {
 					e.q.Observe(f, ci, e.q.P.staticCalleeName(ci.Common()), get)
+				}
+				if st, ok := in.(*ssa.Store); ok && e.q.ObserveStore != nil {
+					e.q.ObserveStore(f, st, get)
 				}
 			}
 		}
